@@ -66,9 +66,13 @@ class P3(MetaProg):
 def gen_case(rng, i, nprocs):
     version = rng.choice([1, 2, 5])
     hints = {}
-    if rng.random() < 0.5:
+    stress = (i % 5 == 4)      # layout stress: tight header, free space before the record section, records present at redefinition
+    if stress:
+        hints["nc_header_align_size"] = 4
+        hints["nc_record_align_size"] = rng.choice([512, 1000, 4096])
+    elif rng.random() < 0.5:
         hints["nc_header_align_size"] = rng.choice([1, 4, 8, 512, 1000, 4096])
-    if rng.random() < 0.4:
+    if not stress and rng.random() < 0.4:
         hints["nc_record_align_size"] = rng.choice([1, 4, 8, 512, 1000])
     if rng.random() < 0.3:
         hints["nc_var_align_size"] = rng.choice([1, 4, 512])
@@ -87,7 +91,12 @@ def gen_case(rng, i, nprocs):
     tps = types_for(version)
     # schema
     ndims = rng.randint(0, 4)
-    if rng.random() < 0.7:
+    if stress:
+        p.def_dim(b"time", 0)
+        p.def_dim(b"sx", rng.randint(2, 5))
+        p.def_var(b"sfix", rng.choice(tps), [1])
+        p.def_var(b"srec", rng.choice(tps), [0, 1])
+    elif rng.random() < 0.7:
         p.def_dim(b"time" if rng.random() < 0.5 else random_name(rng), 0)
     for _ in range(ndims):
         nm = random_name(rng)
@@ -119,8 +128,13 @@ def gen_case(rng, i, nprocs):
     p.defmode = False
     p.cur_args = {"hints": hints, "args": args}
     p.point("after the first enddef")
+    if stress:
+        for vid in range(len(p.m.vars)):
+            p.write_var(vid)
     for step in range(rng.randint(1, 6)):
         r = rng.random()
+        if stress and step == 0:
+            r = 0.9
         if r < 0.4 and p.m.vars:
             p.write_var(rng.randrange(len(p.m.vars)))
             if rng.random() < 0.6:
@@ -150,10 +164,10 @@ def gen_case(rng, i, nprocs):
             p.fresh = False
             for _ in range(rng.randint(0, 3)):
                 p.put_att(rng.choice([-1] + list(range(len(p.m.vars)))), random_name(rng), rng.choice(tps), rng.choice([1, 3, 40, 900]))
-            if rng.random() < 0.6 and p.m.dims:
+            if (stress or rng.random() < 0.6) and p.m.dims:
                 fixed = [d for d in range(len(p.m.dims)) if p.m.dims[d][1] != 0]
                 ud = p.m.unlimdim()
-                ds = ([ud] if ud >= 0 and rng.random() < 0.5 else []) + ([rng.choice(fixed)] if fixed and rng.random() < 0.7 else [])
+                ds = ([ud] if ud >= 0 and (stress or rng.random() < 0.5) else []) + ([rng.choice(fixed)] if fixed and rng.random() < 0.7 else [])
                 nm = random_name(rng)
                 if p.var_id(nm) < 0:
                     p.def_var(nm, rng.choice(tps), ds)
